@@ -613,10 +613,44 @@ def _check_coord_paths(fails, q, mk, hows):
                         return
 
 
+def check_zero_score(fails):
+    """C01 deterministic family: a matching document whose score is 0 (field boost 0) or negative (a weighting that negates)
+    is still a result: the scored search over an n-ary Or (ArrayUnionMatcher) returns the same documents as Query.docs()."""
+    from whoosh import fields, query, scoring
+    from whoosh.filedb.filestore import RamStorage
+    ix = RamStorage().create_index(fields.Schema(k=fields.ID(stored=True), t=fields.TEXT))
+    w = ix.writer()
+    w.add_document(k=u"0", t=u"alfa bravo")
+    w.add_document(k=u"1", t=u"charlie", _t_boost=0.0)
+    w.add_document(k=u"2", t=u"delta alfa")
+    w.add_document(k=u"3", t=u"echo")
+    w.commit()
+    q = query.Or([query.Term("t", x) for x in (u"alfa", u"bravo", u"charlie", u"delta")])
+
+    class Negated(scoring.Frequency):
+        class NegScorer(scoring.WeightScorer):
+            def __init__(self):
+                scoring.WeightScorer.__init__(self, 0)
+
+            def score(self, matcher):
+                return 0 - matcher.weight()
+
+        def scorer(self, searcher, fieldname, text, qf=1):
+            return self.NegScorer()
+    for wname, wt in (("Frequency", scoring.Frequency()), ("negated weights", Negated())):
+        with ix.searcher(weighting=wt) as s:
+            scored = sorted(h["k"] for h in s.search(q, limit=None))
+            unscored = sorted(s.stored_fields(d)["k"] for d in q.docs(s))
+            if scored != unscored or scored != ["0", "1", "2"]:
+                fails.append({"case": "C01-zero-score", "detail": "%s: scored search over Or of 4 terms returns %r, Query.docs() %r, expected "
+                              "['0', '1', '2'] (document 1 has field boost 0)" % (wname, scored, unscored), "corpus": None})
+                return
+
+
 def main():
     if sys.argv[1] == "--deterministic":
         fails = []
-        for fam in (check_scoring_paths, check_limited_nested, check_coord):
+        for fam in (check_scoring_paths, check_limited_nested, check_coord, check_zero_score):
             try:
                 fam(fails)
             except Exception as e:
@@ -643,7 +677,7 @@ def main():
     with multiprocessing.get_context("fork").Pool(jobs) as pool:
         outs = pool.map(run, chunks)
     fails = [f for fs, _ in outs for f in fs]
-    for fam in (check_scoring_paths, check_limited_nested, check_coord):
+    for fam in (check_scoring_paths, check_limited_nested, check_coord, check_zero_score):
         try:
             fam(fails)
         except Exception as e:
